@@ -60,14 +60,16 @@ Proof.
 Qed.
 
 (* every operation leaves every path other than its target alone *)
-Lemma apply_op_frame o f q : wtarget o <> Some q -> lookup (apply_op o f) q = lookup f q.
+Lemma apply_op_frame o f q :
+  wtarget o <> Some q -> wsource o <> Some q -> lookup (apply_op o f) q = lookup f q.
 Proof.
-  destruct o; cbn [wtarget apply_op]; intros H; try reflexivity;
+  destruct o; cbn [wtarget wsource apply_op]; intros H Hs; try reflexivity;
     repeat match goal with
            | |- context [if ?b then _ else _] => destruct b
            | |- context [match lookup ?g ?r with _ => _ end] => destruct (lookup g r) as [[| | |]|]
            end; try reflexivity;
-    try (apply lookup_set_other; congruence); try (apply lookup_remove_other; congruence).
+    try (apply lookup_set_other; congruence); try (apply lookup_remove_other; congruence);
+    try (rewrite lookup_set_other, lookup_remove_other by congruence; reflexivity).
 Qed.
 
 Lemma tear_op_frame o j f q : wtarget o <> Some q -> lookup (tear_op o j f) q = lookup f q.
@@ -98,14 +100,16 @@ Definition special_key (p : path) : option N :=
   | _ => None
   end.
 
-Definition neutralb (o : op) : bool :=
-  match wtarget o with
-  | Some p => match special_key p with Some _ => false | None => true end
-  | None => true
-  end.
+Definition not_special (p : option path) : bool :=
+  match p with Some q => match special_key q with Some _ => false | None => true end | None => true end.
+Definition neutralb (o : op) : bool := not_special (wtarget o) && not_special (wsource o).
+
+(* a rename never involves a protected path *)
+Definition src_ok (o : op) : Prop := not_special (wsource o) = true.
 
 (* what the protocol allows a step to do in state f *)
 Definition proto (f : fs) (o : op) : Prop :=
+  src_ok o /\
   match wtarget o with
   | None => True
   | Some p =>
@@ -145,6 +149,13 @@ Lemma special_key_none p K :
   p <> model_file K /\ p <> results_file K /\ p <> metadata_file K /\ p <> pending K.
 Proof.
   intros H. repeat split; intros ->; cbn in H; discriminate.
+Qed.
+
+Lemma frame_special f o q :
+  src_ok o -> (exists K, special_key q = Some K) -> wtarget o <> Some q -> lookup (apply_op o f) q = lookup f q.
+Proof.
+  intros Hs [K HK] Ht. apply apply_op_frame; [exact Ht|]. unfold src_ok, not_special in Hs.
+  destruct (wsource o) as [s0|]; [|discriminate]. intros [= ->]. rewrite HK in Hs. discriminate.
 Qed.
 
 (* all intermediate steps of an operation list satisfy the protocol *)
@@ -212,9 +223,9 @@ Qed.
 Lemma step_visible f o K :
   proto f o -> visible (apply_op o f) K = true -> visible f K = true \/ o = Remove (pending K).
 Proof.
-  intros Hp Hv. unfold proto in Hp.
+  intros [Hsrc Hp] Hv. unfold proto in Hp.
   destruct (wtarget o) as [p|] eqn:Ht.
-  2:{ left. rewrite <- Hv. symmetry. apply visible_frame; apply apply_op_frame; congruence. }
+  2:{ left. rewrite <- Hv. symmetry. apply visible_frame; (apply (frame_special _ _ _ Hsrc); [eexists; reflexivity | congruence]). }
   destruct (path_eq_dec p (pending K)) as [-> | Hnp].
   - (* the marker itself *)
     replace (special_key (pending K)) with (Some K) in Hp by reflexivity.
@@ -226,15 +237,15 @@ Proof.
     + replace (special_key (model_file K)) with (Some K) in Hp by reflexivity.
       destruct Hp as [_ Hp]. destruct (Hp Hnp) as [c [-> [Hpe _]]].
       unfold visible in Hv.
-      rewrite (exists_frame f _ (pending K)) in Hv by (apply apply_op_frame; cbn; congruence).
+      rewrite (exists_frame f _ (pending K)) in Hv by (apply (frame_special _ _ _ Hsrc); [eexists; reflexivity | cbn; congruence]).
       rewrite Hpe in Hv. discriminate.
-    + left. rewrite <- Hv. symmetry. apply visible_frame; apply apply_op_frame; congruence.
+    + left. rewrite <- Hv. symmetry. apply visible_frame; (apply (frame_special _ _ _ Hsrc); [eexists; reflexivity | congruence]).
 Qed.
 
 Lemma tear_visible f o j K :
   proto f o -> visible (tear_op o j f) K = true -> visible f K = true.
 Proof.
-  intros Hp Hv. unfold proto in Hp.
+  intros [Hsrc Hp] Hv. unfold proto in Hp.
   destruct (wtarget o) as [p|] eqn:Ht.
   2:{ rewrite <- Hv. symmetry. apply visible_frame; apply tear_op_frame; congruence. }
   destruct (path_eq_dec p (pending K)) as [-> | Hnp].
@@ -282,9 +293,9 @@ Lemma step_model_file f o K :
   proto f o -> is_file f (model_file K) = true ->
   lookup (apply_op o f) (model_file K) = lookup f (model_file K).
 Proof.
-  intros Hp Hf. unfold proto in Hp.
-  destruct (wtarget o) as [p|] eqn:Ht; [|apply apply_op_frame; congruence].
-  destruct (path_eq_dec p (model_file K)) as [-> | Hn]; [|apply apply_op_frame; congruence].
+  intros [Hsrc Hp] Hf. unfold proto in Hp.
+  destruct (wtarget o) as [p|] eqn:Ht; [|(apply (frame_special _ _ _ Hsrc); [eexists; reflexivity | congruence])].
+  destruct (path_eq_dec p (model_file K)) as [-> | Hn]; [|(apply (frame_special _ _ _ Hsrc); [eexists; reflexivity | congruence])].
   replace (special_key (model_file K)) with (Some K) in Hp by reflexivity.
   destruct Hp as [_ Hp]. destruct (Hp ltac:(discriminate)) as [c [_ [_ H]]].
   destruct (H eq_refl) as [H' _]. congruence.
@@ -294,7 +305,7 @@ Lemma tear_model_file f o j K :
   proto f o -> is_file f (model_file K) = true ->
   lookup (tear_op o j f) (model_file K) = lookup f (model_file K).
 Proof.
-  intros Hp Hf. unfold proto in Hp.
+  intros [Hsrc Hp] Hf. unfold proto in Hp.
   destruct (wtarget o) as [p|] eqn:Ht; [|apply tear_op_frame; congruence].
   destruct (path_eq_dec p (model_file K)) as [-> | Hn]; [|apply tear_op_frame; congruence].
   replace (special_key (model_file K)) with (Some K) in Hp by reflexivity.
@@ -328,34 +339,34 @@ Qed.
 
 Lemma step_inv f o : Inv f -> proto f o -> Inv (apply_op o f).
 Proof.
-  intros HI Hp K Hne. unfold proto in Hp.
+  intros HI [Hsrc Hp] K Hne. unfold proto in Hp.
   destruct (wtarget o) as [p|] eqn:Ht.
-  2:{ rewrite (exists_frame f) in Hne by (apply apply_op_frame; congruence).
-      rewrite <- (HI K Hne). apply good_local_frame; apply apply_op_frame; congruence. }
+  2:{ rewrite (exists_frame f) in Hne by (apply (frame_special _ _ _ Hsrc); [eexists; reflexivity | congruence]).
+      rewrite <- (HI K Hne). apply good_local_frame; (apply (frame_special _ _ _ Hsrc); [eexists; reflexivity | congruence]). }
   destruct (special_key p) as [K'|] eqn:Hsk.
   2:{ destruct (special_key_none p K Hsk) as [H1 [H2 [H3 H4]]].
-      rewrite (exists_frame f) in Hne by (apply apply_op_frame; congruence).
-      rewrite <- (HI K Hne). apply good_local_frame; apply apply_op_frame; congruence. }
+      rewrite (exists_frame f) in Hne by (apply (frame_special _ _ _ Hsrc); [eexists; reflexivity | congruence]).
+      rewrite <- (HI K Hne). apply good_local_frame; (apply (frame_special _ _ _ Hsrc); [eexists; reflexivity | congruence]). }
   destruct (N.eq_dec K' K) as [-> | HK].
   - destruct Hp as [Hp1 Hp2]. destruct (path_eq_dec p (pending K)) as [-> | Hnp].
     + destruct (Hp1 eq_refl) as [-> | [-> Hg]].
       * destruct (exists_after_openx f (pending K)) as [E | E]; [congruence|].
         rewrite E in *. apply HI. exact Hne.
-      * rewrite <- Hg. apply good_local_frame; apply apply_op_frame; cbn; discriminate.
+      * rewrite <- Hg. apply good_local_frame; (apply (frame_special _ _ _ Hsrc); [eexists; reflexivity | cbn; discriminate]).
     + destruct (Hp2 Hnp) as [c [-> [Hpe _]]].
-      rewrite (exists_frame f) in Hne by (apply apply_op_frame; cbn; congruence). congruence.
+      rewrite (exists_frame f) in Hne by (apply (frame_special _ _ _ Hsrc); [eexists; reflexivity | cbn; congruence]). congruence.
   - (* an operation on another key's files *)
     assert (Hd : forall q, special_key q = Some K -> p <> q).
     { intros q Hq ->. apply HK. congruence. }
     assert (Hfr : forall q, special_key q = Some K -> lookup (apply_op o f) q = lookup f q).
-    { intros q Hq. apply apply_op_frame. rewrite Ht. intros [= E]. exact (Hd q Hq E). }
+    { intros q Hq. apply (frame_special _ _ _ Hsrc); [eexists; exact Hq|]. rewrite Ht. intros [= E]. exact (Hd q Hq E). }
     rewrite (exists_frame f) in Hne by (apply Hfr; reflexivity).
     rewrite <- (HI K Hne). apply good_local_frame; apply Hfr; reflexivity.
 Qed.
 
 Lemma tear_inv f o j : Inv f -> proto f o -> Inv (tear_op o j f).
 Proof.
-  intros HI Hp K Hne. unfold proto in Hp.
+  intros HI [Hsrc Hp] K Hne. unfold proto in Hp.
   destruct (wtarget o) as [p|] eqn:Ht.
   2:{ rewrite (exists_frame f) in Hne by (apply tear_op_frame; congruence).
       rewrite <- (HI K Hne). apply good_local_frame; apply tear_op_frame; congruence. }
@@ -480,13 +491,16 @@ Qed.
 
 Lemma neutral_sameS o f : neutralb o = true -> sameS f (apply_op o f).
 Proof.
-  intros H p K Hk. apply apply_op_frame. unfold neutralb in H.
-  destruct (wtarget o) as [q|]; [|discriminate]. intros [= ->]. rewrite Hk in H. discriminate.
+  intros H p K Hk. unfold neutralb, not_special in H. apply andb_true_iff in H. destruct H as [H1 H2].
+  apply apply_op_frame.
+  - destruct (wtarget o) as [q|]; [|discriminate]. intros [= ->]. rewrite Hk in H1. discriminate.
+  - destruct (wsource o) as [q|]; [|discriminate]. intros [= ->]. rewrite Hk in H2. discriminate.
 Qed.
 
 Lemma neutral_proto o f : neutralb o = true -> proto f o.
 Proof.
-  unfold neutralb, proto. destruct (wtarget o) as [p|]; [|tauto].
+  unfold neutralb, proto, src_ok. intros H. apply andb_true_iff in H. destruct H as [H1 H2]. split; [exact H2|].
+  unfold not_special in H1. destruct (wtarget o) as [p|]; [|tauto].
   destruct (special_key p); [discriminate | tauto].
 Qed.
 
@@ -546,6 +560,8 @@ Lemma neutral_write_file p c : neutralb (OpenW p c) = true -> neutral_prog (writ
 Proof. intros H. unfold write_file. neutral_tac. Qed.
 Lemma neutral_append_file p c : neutralb (OpenA p c) = true -> neutral_prog (append_file p c).
 Proof. intros H. unfold append_file. neutral_tac. Qed.
+Lemma neutral_rename_file s0 d : neutralb (Rename s0 d) = true -> neutral_prog (rename_file s0 d).
+Proof. intros H. unfold rename_file. neutral_tac. Qed.
 Lemma neutral_read_file p : neutral_prog (read_file p).
 Proof. unfold read_file. neutral_tac. Qed.
 
@@ -556,6 +572,7 @@ Ltac neutral_prim :=
         | apply neutral_lock; reflexivity
         | apply neutral_write_file; reflexivity
         | apply neutral_append_file; reflexivity
+        | apply neutral_rename_file; reflexivity
         | apply neutral_read_file ].
 
 Ltac neutral_all :=
@@ -570,32 +587,6 @@ Ltac neutral_all :=
                  | |- neutral_prog (match ?x with _ => _ end) => destruct x
                  | |- neutral_prog (let '(_, _) := ?x in _) => destruct x
                  end ].
-
-(* the dataset part of store_model: index lookup or creation, csv, datainfo *)
-Definition store_dataset (m : mdl) (f : fs) : M N :=
-  let h := m_dh m in
-  if is_dir f (hdir h) then
-    emit (Listdir (hdir h)) ;;
-    match children f (hdir h) with
-    | [] => fail EStopIteration
-    | CCsv n :: _ =>
-        dc <- read_file (dinfo n) ;;
-        match dc with
-        | [t; di; n'] =>
-            if N.eqb t T_DI then ret (if N.eqb di (m_di m) then n' else 0%N)
-            else fail ECorrupt
-        | _ => fail ECorrupt
-        end
-    | _ :: _ => fail ECorrupt
-    end
-  else
-    mkdir_p (hdir h) ;;
-    f1 <- get ;; emit (Listdir ds_dir) ;;
-    let n := (highest f1 + 1)%N in
-    touch (hidx h n) ;;
-    write_file (csv n) [T_CSV; h] ;;
-    write_file (dinfo n) [T_DI; m_di m; n] ;;
-    ret n.
 
 Lemma store_model_unfold m :
   store_model m =
@@ -695,7 +686,7 @@ Lemma hoare_write_model K h n :
         (write_file (model_file K) [T_MODEL; K; h; n]) (fun _ => Ptxn K).
 Proof.
   apply hoare_write_file. intros f [[H1 H2] H3]. split.
-  - unfold proto. cbn [wtarget]. replace (special_key (model_file K)) with (Some K) by reflexivity.
+  - unfold proto. split; [reflexivity|]. cbn [wtarget]. replace (special_key (model_file K)) with (Some K) by reflexivity.
     split; [discriminate|]. intros _. eexists. split; [reflexivity|]. split; [exact H1|].
     intros ?. split; [exact H3 | eauto].
   - intros Hc. cbn [apply_op]. rewrite Hc. split.
@@ -707,7 +698,7 @@ Lemma hoare_write_results K c :
   hoare (Ptxn K) (write_file (results_file K) c) (fun _ => Ptxn K).
 Proof.
   apply hoare_write_file. intros f [H1 H2]. split.
-  - unfold proto. cbn [wtarget]. replace (special_key (results_file K)) with (Some K) by reflexivity.
+  - unfold proto. split; [reflexivity|]. cbn [wtarget]. replace (special_key (results_file K)) with (Some K) by reflexivity.
     split; [discriminate|]. intros ?. eexists. split; [reflexivity|]. split; [exact H1|]. discriminate.
   - intros Hc. cbn [apply_op]. rewrite Hc. split.
     + unfold exists_. rewrite lookup_set_other by discriminate. exact H1.
@@ -718,7 +709,7 @@ Lemma hoare_write_metadata K c :
   hoare (Ptxn K) (write_file (metadata_file K) c) (fun _ => Ptxn K).
 Proof.
   apply hoare_write_file. intros f [H1 H2]. split.
-  - unfold proto. cbn [wtarget]. replace (special_key (metadata_file K)) with (Some K) by reflexivity.
+  - unfold proto. split; [reflexivity|]. cbn [wtarget]. replace (special_key (metadata_file K)) with (Some K) by reflexivity.
     split; [discriminate|]. intros ?. eexists. split; [reflexivity|]. split; [exact H1|]. discriminate.
   - intros Hc. cbn [apply_op]. rewrite Hc. split.
     + unfold exists_. rewrite lookup_set_other by discriminate. exact H1.
@@ -757,7 +748,7 @@ Qed.
 Lemma hoare_touch_excl K : hoare Inv (touch_excl (pending K)) (fun _ => Ptxn K).
 Proof.
   intros f HI. rewrite touch_excl_eq. cbn [fst snd]. split.
-  - cbn. split; [|exact I]. unfold proto. cbn [wtarget].
+  - cbn. split; [|exact I]. unfold proto. split; [reflexivity|]. cbn [wtarget].
     replace (special_key (pending K)) with (Some K) by reflexivity. split; [tauto|]. intros H. contradiction.
   - intros [] E. destruct (exists_ f (pending K)) eqn:Ee; [discriminate|].
     destruct (parent_ok f (pending K)) eqn:Epo; [|discriminate].
@@ -769,7 +760,7 @@ Qed.
 Lemma hoare_commit K : hoare (Ptxn K) (remove_file (pending K)) (fun _ _ => True).
 Proof.
   intros f [H1 H2]. rewrite remove_file_eq. split; [|tauto].
-  cbn. split; [|exact I]. unfold proto. cbn [wtarget].
+  cbn. split; [|exact I]. unfold proto. split; [reflexivity|]. cbn [wtarget].
   replace (special_key (pending K)) with (Some K) by reflexivity. split; [|intros H; contradiction].
   intros ?. right. tauto.
 Qed.
@@ -923,6 +914,11 @@ Lemma all_write_file S p c : S (OpenW p c) = true -> all_prog S (write_file p c)
 Proof. intros H f. rewrite write_file_eq. cbn. rewrite H. reflexivity. Qed.
 Lemma all_touch_excl S p : S (OpenX p) = true -> all_prog S (touch_excl p).
 Proof. intros H f. rewrite touch_excl_eq. cbn. rewrite H. reflexivity. Qed.
+Lemma all_rename_file S s0 d : S (Rename s0 d) = true -> all_prog S (rename_file s0 d).
+Proof.
+  intros H f. unfold rename_file, bind, get, emit, ret, fail. cbn [fst snd app].
+  destruct (is_file f s0 && can_write f d); cbn; rewrite H; reflexivity.
+Qed.
 Lemma all_remove_file S p : S (Remove p) = true -> all_prog S (remove_file p).
 Proof. intros H f. rewrite remove_file_eq. cbn. rewrite H. reflexivity. Qed.
 
@@ -961,18 +957,18 @@ Definition avoids (K : N) (o : op) : bool :=
   match wtarget o with
   | Some p => match special_key p with Some K' => negb (N.eqb K' K) | None => true end
   | None => true
-  end.
+  end && not_special (wsource o).
 
 Lemma avoids_neutral K o : neutralb o = true -> avoids K o = true.
 Proof.
-  unfold neutralb, avoids. destruct (wtarget o) as [p|]; [|reflexivity].
-  destruct (special_key p); [discriminate | reflexivity].
+  unfold neutralb, avoids, not_special. intros H. apply andb_true_iff in H. destruct H as [H1 H2]. rewrite H2.
+  destruct (wtarget o) as [p|]; [|reflexivity]. destruct (special_key p); [discriminate | reflexivity].
 Qed.
 
 Lemma avoids_other K K' o p :
-  K' <> K -> wtarget o = Some p -> special_key p = Some K' -> avoids K o = true.
+  K' <> K -> wtarget o = Some p /\ wsource o = None -> special_key p = Some K' -> avoids K o = true.
 Proof.
-  intros H Ht Hs. unfold avoids. rewrite Ht, Hs. apply negb_true_iff. apply N.eqb_neq. exact H.
+  intros H [Ht Hso] Hs. unfold avoids. rewrite Ht, Hs, Hso. cbn. rewrite andb_true_r. apply negb_true_iff. apply N.eqb_neq. exact H.
 Qed.
 
 Lemma all_item_avoids i K : item_key i <> Some K -> all_prog (avoids K) (item_prog i).
@@ -988,19 +984,19 @@ Proof.
                | apply neutral_forget, neutral_retrieve_log ]).
   - assert (Hne : m_key m <> K) by congruence.
     unfold ctx_store. apply all_bind; [|intro].
-    + apply all_transaction; try exact Hn; try (eapply avoids_other; [exact Hne | reflexivity | reflexivity]).
-      apply all_store_model_entry; try exact Hn; intros c; eapply avoids_other; [exact Hne | reflexivity | reflexivity | exact Hne | reflexivity | reflexivity].
+    + apply all_transaction; try exact Hn; try (eapply avoids_other; [exact Hne | split; reflexivity | reflexivity]).
+      apply all_store_model_entry; try exact Hn; intros c; eapply avoids_other; [exact Hne | split; reflexivity | reflexivity | exact Hne | split; reflexivity | reflexivity].
     + apply all_bind; [apply all_of_neutral; [exact Hn | apply neutral_store_key] | intro].
       apply all_of_neutral; [exact Hn | apply neutral_store_annotation].
   - assert (Hne : m_key m <> K) by congruence.
     unfold db_store_model_entry.
-    apply all_transaction; try exact Hn; try (eapply avoids_other; [exact Hne | reflexivity | reflexivity]).
-    apply all_store_model_entry; try exact Hn; intros c; eapply avoids_other; [exact Hne | reflexivity | reflexivity | exact Hne | reflexivity | reflexivity].
+    apply all_transaction; try exact Hn; try (eapply avoids_other; [exact Hne | split; reflexivity | reflexivity]).
+    apply all_store_model_entry; try exact Hn; intros c; eapply avoids_other; [exact Hne | split; reflexivity | reflexivity | exact Hne | split; reflexivity | reflexivity].
   - assert (Hne : m_key m <> K) by congruence.
     unfold db_store_metadata.
-    apply all_transaction; try exact Hn; try (eapply avoids_other; [exact Hne | reflexivity | reflexivity]).
+    apply all_transaction; try exact Hn; try (eapply avoids_other; [exact Hne | split; reflexivity | reflexivity]).
     apply all_bind; [apply all_of_neutral; [exact Hn | apply neutral_mkdir_p; reflexivity] | intro].
-    apply all_write_file. eapply avoids_other; [exact Hne | reflexivity | reflexivity].
+    apply all_write_file. eapply avoids_other; [exact Hne | split; reflexivity | reflexivity].
 Qed.
 
 Lemma trace_avoids w K : forall f0,
@@ -1011,9 +1007,11 @@ Proof.
   apply IH. intros j Hj. apply H. right. exact Hj.
 Qed.
 
-Lemma avoids_target K o p : avoids K o = true -> special_key p = Some K -> wtarget o <> Some p.
+Lemma avoids_target K o p : avoids K o = true -> special_key p = Some K -> wtarget o <> Some p /\ wsource o <> Some p.
 Proof.
-  unfold avoids. intros H Hs E. rewrite E, Hs, N.eqb_refl in H. discriminate.
+  unfold avoids, not_special. intros H Hs. apply andb_true_iff in H. destruct H as [H1 H2]. split; intros E.
+  - rewrite E, Hs, N.eqb_refl in H1. discriminate.
+  - rewrite E, Hs in H2. discriminate.
 Qed.
 
 Lemma avoiding_ops_frame ops : forall f0 k torn K p,
@@ -1026,7 +1024,7 @@ Proof.
     + unfold crash. cbn [firstn run_ops fold_left nth_error]. destruct torn as [j|]; [|reflexivity].
       apply tear_op_frame. eapply avoids_target; eassumption.
     + assert (Hc : crash f0 (o :: ops) (S k) torn = crash (apply_op o f0) ops k torn) by reflexivity.
-      rewrite Hc, (IH _ _ _ K p Ha Hs). apply apply_op_frame. eapply avoids_target; eassumption.
+      rewrite Hc, (IH _ _ _ K p Ha Hs). destruct (avoids_target K o p Ho Hs). apply apply_op_frame; assumption.
 Qed.
 
 Lemma committed_intact_lemma :
@@ -1088,6 +1086,7 @@ Ltac nosym_all :=
   repeat first [ apply nosym_mkdir_p | apply nosym_mkdir1 | apply nosym_touch | apply nosym_lock
                | apply nosym_write_file | apply nosym_append_file | apply nosym_read_file
                | apply all_touch_excl; reflexivity | apply all_remove_file; reflexivity
+               | apply all_rename_file; reflexivity
                | match goal with
                  | |- all_prog nosym (bind _ _) => apply all_bind; [|intro]
                  | |- all_prog nosym (ret _) => apply all_ret
@@ -1101,7 +1100,7 @@ Ltac nosym_all :=
 Lemma nosym_transaction {A} K (body : M A) : all_prog nosym body -> all_prog nosym (transaction K body).
 Proof. intros H. unfold transaction. nosym_all. exact H. Qed.
 Lemma nosym_store_model_entry m : all_prog nosym (store_model_entry m).
-Proof. unfold store_model_entry, store_model, store_modelfit_results. nosym_all. Qed.
+Proof. unfold store_model_entry, store_model, store_modelfit_results, store_dataset. cbv zeta. nosym_all. Qed.
 Lemma nosym_store_annotation name a : all_prog nosym (store_annotation name a).
 Proof. unfold store_annotation. nosym_all. Qed.
 Lemma nosym_store_message p d s msg : all_prog nosym (store_message p d s msg).
@@ -1275,11 +1274,22 @@ Qed.
 Lemma step_link f o p t :
   lookup (apply_op o f) p = Some (Link t) -> lookup f p = Some (Link t) \/ o = Symlink t p.
 Proof.
-  intros H. destruct (wtarget o) as [q|] eqn:Ht.
-  2:{ left. rewrite <- H. symmetry. apply apply_op_frame. congruence. }
+  intros H.
+  assert (Hr : forall s0 d, o = Rename s0 d -> lookup f p = Some (Link t)).
+  { intros s0 d ->. cbn [apply_op] in H.
+    destruct (lookup f s0) as [[|c|c|]|] eqn:Es; try exact H; (destruct (can_write f d); [|exact H]);
+      (destruct (path_eq_dec d p) as [->|Hd]; [rewrite lookup_set_same in H; discriminate|]);
+      rewrite lookup_set_other in H by exact Hd;
+      (destruct (path_eq_dec s0 p) as [->|Hs]; [rewrite lookup_remove_same in H; discriminate|]);
+      rewrite lookup_remove_other in H by exact Hs; exact H. }
+  destruct (wsource o) as [s0|] eqn:Eso.
+  { destruct o; try discriminate. left. eapply Hr. reflexivity. }
+  destruct (wtarget o) as [q|] eqn:Ht.
+  2:{ left. rewrite <- H. symmetry. apply apply_op_frame; congruence. }
   destruct (path_eq_dec q p) as [-> | Hn].
-  2:{ left. rewrite <- H. symmetry. apply apply_op_frame. congruence. }
-  destruct o; cbn [wtarget] in Ht; try discriminate; injection Ht as ->; cbn [apply_op] in H;
+  2:{ left. rewrite <- H. symmetry. apply apply_op_frame; congruence. }
+  destruct o; cbn [wtarget] in Ht; try discriminate; try (cbn in Eso; discriminate Eso);
+    injection Ht as ->; cbn [apply_op] in H;
     repeat match type of H with
            | context [if ?b then _ else _] => destruct b
            | context [match lookup ?g ?r with _ => _ end] => destruct (lookup g r) as [[| | |]|] eqn:?
